@@ -15,6 +15,7 @@ import numpy as np
 from EasyFEA import AlgoType, Models, Simulations
 from EasyFEA.FEM import BiLinearForm, Field, LinearForm
 
+from . import _suite
 from ..core import Ctx, quiet, relerr
 from ..gen import meshes as gm
 from . import _beam_common as bcm
@@ -88,6 +89,9 @@ def cases(tier: str, seed: int) -> list[dict]:
     for i, c in enumerate(out):
         c["id"] = f"C14-{i:05d}-{c['kind']}-{c['et']}"
         c["index"] = i
+    for c in _suite.suite_cases(PROP, tier):
+        c["index"] = len(out)
+        out.append(c)
     return out
 
 
@@ -240,6 +244,8 @@ def initial_cfg(case, rng):
 
 
 def run_case(case: dict, ctx: Ctx) -> None:
+    if case.get("fam") == "suite":
+        return _suite.run_suite(case, ctx, PROP)
     rng = np.random.default_rng([case["seed"], NUM, case["index"]])
     kind, dim, et = case["kind"], case["dim"], case["et"]
     key0 = f"C14/{kind}"
